@@ -25,21 +25,21 @@ AREAS = [  # (path prefix, checks whose workloads reach it)
     ("codec/dagcbor/", "C02 C03 C05 C06 C10 C11"),
     ("codec/dagjson/", "C04 C05 C06 C10 C11"),
     ("codec/raw/", "C05 C06 C10 C11"),
-    ("codec/cbor/", "C05 C06 C10"),
-    ("codec/json/", "C05 C06 C10"),
+    ("codec/cbor/", "C03 C05 C06 C10"),
+    ("codec/json/", "C04 C05 C06 C10"),
     ("codec/", "C02 C03 C04 C05"),
     ("codecHelpers.go", "C19"),
     ("datamodel/path", "C14 C10 C07 C15"),
     ("datamodel/", "C01 C11 C12 C14 C16 C10"),
-    ("node/basicnode/", "C01 C11 C12 C02 C03 C16"),
+    ("node/basicnode/", "C01 C11 C12 C02 C03 C16 C20"),
     ("node/mixins/", "C01 C13"),
     ("node/bindnode/", "C01 C08 C09 C11 C12 C13 C19 C20 C10"),
     ("schema/gen/go/", "C13"),
     ("schema/", "C08 C09 C13 C19"),
-    ("linking/", "C05 C06 C11 C16 C20 C17"),
+    ("linking/", "C05 C06 C11 C16 C20 C17 C10"),
     ("multicodec/", "C05 C06 C20"),
     ("traversal/selector/", "C07 C10 C15 C14 C16"),
-    ("traversal/", "C07 C14 C15 C16 C10 C20"),
+    ("traversal/", "C07 C14 C15 C16 C10 C11 C20"),
     ("storage/fsstore/", "C17 C18 C20"),
     ("storage/", "C17 C18 C05"),
 ]
